@@ -46,6 +46,21 @@ ids) all schedules with <=1 preemption at line level and <=2 at lock level (thor
 lines).  Oracle on the wire: ids in the sender field of CHANNEL_OPEN / OPEN_CONFIRMATION, in send order, are in 24 bits and not
 in use (an id is released when an operation starts closing its channel or the peer refuses the open); the Channel objects the
 application holds are distinct objects with distinct ids; open_channel returns the id its CHANNEL_OPEN carried.
+
+Round 4 dimensions (all three engines):
+  * peer opens / local opens the OTHER side turns down.  Pair engine: rule "refused" - the client asks for a kind the server object
+    refuses (the server transport takes an id first, then asks), or the server asks for an x11 channel the client has no handler
+    for; nothing becomes live, the two sides' counters move out of step, every live channel must still be the object registered
+    under its id.  Puppet engine: rule peer_open_refused (client role: "session" / x11 without handler / unknown kind; server role:
+    kinds the server object refuses) - the answer must be OPEN_FAILURE and afterwards EVERY established channel is still
+    reachable under its id (data routing).  Scheduler engine: op ("prefused", kind, peer id) in the pre-state and in the
+    transport-thread task.
+  * the PEER's ids are no longer kept apart from the local ones (puppet 500+, scheduler 700+): the sender id of a peer open (accepted
+    or refused) and of an OPEN_CONFIRMATION is "fresh" | the value of a local id in use (established channel / unanswered open) |
+    the value the local counter stands at (lockstep) | a value above 2^24 (the peer's ids are any uint32) - never a value the
+    peer already uses for a live channel of its own.  Classes pup:peer-id-equals-*, pup:peer-id-above-24-bits,
+    pup:peer-open-refused[-whose-sender-id-equals-a-local-id-in-use], refused-open:c|s, refused-open-sender-id-equals-live-local-id,
+    sch:peer-open-refused, sch:peer-id-equals-local-id-in-use, sch:peer-id-above-24-bits.
 """
 import contextlib
 import gc
@@ -75,7 +90,9 @@ RULE = (
     "locks + all lines of the open/registration code} x open_channel poll {timed, until-set}; plus ALL schedules with <=1 preemption (line level) and <=2 "
     "(lock level) of 10 programs 'one peer open of kind k || one local open'; oracle: ids on the wire (CHANNEL_OPEN / OPEN_CONFIRMATION sender), in send order, in "
     "24 bits and not in use + the application's Channel objects distinct; non-trivial there = a task was preempted inside the id allocation, or an allocation "
-    "after a jump/wrap; classes sch:*"
+    "after a jump/wrap; classes sch:*. Round 4, all engines: opens the other side REFUSES (pair: rule refused c|s; puppet: rule peer_open_refused - kinds without handler / "
+    "kinds the server object turns down - followed by a data probe of every established channel; sch: op prefused in pre-state and transport task) and the peer's sender "
+    "ids drawn from {fresh, value of a local id in use (established / unanswered), value of the local counter, above 2^24} for peer opens, refused peer opens and OPEN_CONFIRMATIONs"
 )
 
 TO = 15.0
@@ -113,7 +130,8 @@ class Sess:
             self.gate_on = False
             self.gate_in.set()
             self.gate_go.wait(TO)
-        return peers.OPEN_SUCCEEDED
+        # every history opens "session" channels; any other kind the client asks for is turned down (rule "refused")
+        return peers.OPEN_SUCCEEDED if kind == "session" else peers.OPEN_FAILED_ADMINISTRATIVELY_PROHIBITED
 
     def close(self):
         self.gate_go.set()
@@ -235,6 +253,39 @@ class Sess:
         self.new_id("c", c, "peer-open", lc)
         self.register(c, s, "peer-open")
         self.classes.append("peer-open")
+
+    def op_refused(self, op):
+        """An open the OTHER side turns down: side "c" - the client asks for a channel kind the server object refuses (the server
+        transport took an id for it before asking); side "s" - the server asks for an x11 channel, for which this client has no
+        handler.  Nothing becomes live; every live channel must stay what and where it was (check_maps), and the ids the two
+        sides burnt move their counters out of step."""
+        import paramiko
+
+        side = op["side"]
+        req = side
+        oth = "s" if side == "c" else "c"
+        self.mark_hot()
+        # the sender id the refusing side will see: first id free on the requesting side from its counter on (label only)
+        v = self.T[req]._channel_counter
+        for _ in range(len(self.live[req]) + 1):
+            if v not in self.live[req]:
+                break
+            v = (v + 1) % MAXID
+        try:
+            if side == "c":
+                ch = self.tc.open_channel("refused@verif", timeout=TO)
+            else:
+                ch = self.ts.open_channel("x11", src_addr=("10.1.1.1", 6010), timeout=TO)
+        except paramiko.ChannelException:
+            ch = None
+        if ch is not None:
+            raise peers.core.HarnessError("C23 harness: open of a kind the other side refuses succeeded: %r" % (ch,))
+        if not self.link.wait_quiescent(TO):
+            raise peers.core.HarnessError("C23 harness: link not quiescent after refused open")
+        self.classes.append("refused-open:" + side)
+        if v in self.live[oth]:
+            self.nontrivial = True
+            self.classes.append("refused-open-sender-id-equals-live-local-id")
 
     def _forget(self, pair):
         c, s = pair
@@ -390,7 +441,10 @@ class PupSess:
             self.link, tc, ts, _ = peers.connected_pair(client_cls=peers.VTransport, server_cls=peers.Puppet)
             self.tested, self.puppet = tc, ts
         else:
-            self.link, tc, ts, _ = peers.connected_pair(client_cls=peers.Puppet, server_cls=peers.VTransport)
+            srv = peers.OpenServer()
+            # the tested server's application accepts "session" channels and turns every other kind down
+            srv.policy["check_channel_request"] = lambda kind, chanid: peers.OPEN_SUCCEEDED if kind == "session" else peers.OPEN_FAILED_ADMINISTRATIVELY_PROHIBITED
+            self.link, tc, ts, _ = peers.connected_pair(client_cls=peers.Puppet, server_cls=peers.VTransport, server_obj=srv)
             self.tested, self.puppet = ts, tc
         self.puppet.raw()
         self.seen = 0
@@ -574,11 +628,42 @@ class PupSess:
         self.classes.append("pup:local-open-started")
         self.sync()
 
+    def pick_pid(self, op):
+        """The id the PEER uses for its end of a channel (sender field of its CHANNEL_OPEN / OPEN_CONFIRMATION).  The two sides
+        number their channels independently, from the same small integers: "fresh" = a value no local id ever has here (500+);
+        "local" = the value of the local id of an established channel / of an unanswered open; "counter" = the value the tested
+        side's counter stands at (two sides counting in lockstep); "high" = a value above 2^24 (the peer's ids are any uint32;
+        only OUR ids are confined to 24 bits).  A peer never uses one of its ids for two live channels."""
+        how = op.get("pid") or "fresh"
+        pid = None
+        if how == "local":
+            pool = self.ids_in_use()
+            if pool:
+                pid = pool[op.get("pidx", 0) % len(pool)]
+        elif how == "counter":
+            pid = getattr(self.tested, "_channel_counter", None)
+        elif how == "high":
+            pid = 0xFFFFFF00 + (self.next_pid % 200)
+            self.next_pid += 1
+            if not any(c["pid"] == pid for c in self.live):
+                self.classes.append("pup:peer-id-above-24-bits")
+                return pid
+        if pid is None or any(c["pid"] == pid for c in self.live):
+            pid = self.next_pid
+            self.next_pid += 1
+            return pid
+        if pid in [c["id"] for c in self.live]:
+            self.classes.append("pup:peer-id-equals-id-of-established-local-channel")
+        elif pid in [p["id"] for p in self.pending]:
+            self.classes.append("pup:peer-id-equals-id-of-unanswered-local-open")
+        else:
+            self.classes.append("pup:peer-id-equals-local-counter")
+        return pid
+
     def op_answer(self, op):
         p = self.pending.pop(op["idx"] % len(self.pending))
         if op["ok"]:
-            pid = self.next_pid
-            self.next_pid += 1
+            pid = self.pick_pid(op)
             self.puppet.send_raw_seq(peers.m_channel_open_confirm(p["id"], pid))
         else:
             self.puppet.send_raw_seq(peers.m_channel_open_failure(p["id"]))
@@ -599,21 +684,39 @@ class PupSess:
         else:
             self.classes.append("pup:open-refused")
 
+    REFUSED_KINDS = {"client": [b"session", b"x11", b"unknown@verif"], "server": [b"refused@verif", b"x11"]}
+
     def op_popen(self, op):
         self.mark_hot()
         before = self.tested._channel_counter
-        pid = self.next_pid
-        self.next_pid += 1
+        pid = self.pick_pid(op)
+        refuse = bool(op.get("refuse"))
         R = self.R
-        if self.role == "client":
+        if refuse:
+            # a kind this side turns down: client role - kinds without a handler on this transport ("session", x11 without an x11
+            # handler, an unknown kind); server role - kinds the server object refuses (it is asked AFTER an id was taken)
+            kinds = self.REFUSED_KINDS[self.role]
+            kind = kinds[op.get("kind", 0) % len(kinds)]
+            rest = R.string(b"10.9.8.7") + R.u32(6010) if kind == b"x11" else b""
+            self.puppet.send_raw_seq(peers.m_channel_open(kind, pid, rest=rest))
+        elif self.role == "client":
             rest = R.string(b"") + R.u32(4242) + R.string(b"10.9.8.7") + R.u32(4711)
             self.puppet.send_raw_seq(peers.m_channel_open(b"forwarded-tcpip", pid, rest=rest))
         else:
             self.puppet.send_raw_seq(peers.m_channel_open(b"session", pid))
         new = self.sync()
         rep = [e for e in new if e[1] in (91, 92) and e[2][:4] == R.u32(pid)]
-        if len(rep) != 1 or rep[0][1] != 91:
+        if len(rep) != 1 or (rep[0][1] != 91 and not refuse):
             raise peers.core.HarnessError("C23 harness: peer open not confirmed: %r" % ([(e[1], e[2][:12].hex()) for e in new],))
+        if rep[0][1] == 92:
+            # turned down: no channel came into being, and every established channel is still reachable under its id
+            self.classes.append("pup:peer-open-refused")
+            if pid in self.ids_in_use():
+                self.nontrivial = True
+                self.classes.append("pup:peer-open-refused-whose-sender-id-equals-a-local-id-in-use")
+            for c in list(self.live):
+                self.route(c, "after-refused-peer-open")
+            return
         rd = R.Reader(rep[0][2])
         rd.u32()
         cid = rd.u32()
@@ -715,6 +818,9 @@ SCH_TRACED = {"_next_channel", "open_channel", "_parse_channel_open", "_parse_ch
 SCH_TRACED_ALLOC = {"_next_channel", "get", "put"}  # trace == "alloc": line-level switch points in the allocation / table code only
 SCH_PEER_KINDS = {"client": ["forwarded-tcpip", "x11", "auth-agent@openssh.com"], "server": ["session", "direct-tcpip"]}
 SCH_LOCAL_KINDS = {"client": ["session", "direct-tcpip"], "server": ["forwarded-tcpip", "x11"]}
+# peer opens this side turns down: client - kinds without a handler on the transport; server - kinds the server object refuses
+# (after the transport took an id for the channel)
+SCH_REFUSED_KINDS = {"client": ["session", "unknown@verif"], "server": ["refused@verif", "x11"]}
 
 
 def sch_hot(tag):
@@ -808,7 +914,8 @@ class SchBench:
         self.wire_open = {}  # task name -> id of its last CHANNEL_OPEN
         self.pending = []  # local ids of CHANNEL_OPENs the peer has not answered yet
         self.closes = []  # peer-side ids (recipient field) of CHANNEL_CLOSEs the transport sent and the peer has not answered
-        self.pid2cid = {}
+        self.pid2cid = {}  # the peer's live channel records: its id -> our id (removed when the CLOSE handshake is complete)
+        self.peer_closed = set()  # peer ids whose CLOSE the peer has already sent (peer-first close): our CLOSE completes the handshake
         self.next_pid = 700
         self.objects = []  # [Channel, id at hand-over, closed by an op?, origin]
         self.napps = len(case["apps"])
@@ -825,7 +932,7 @@ class SchBench:
         if self.role == "server":
             class Srv(ServerInterface):
                 def check_channel_request(self, kind, chanid):
-                    return PT.OPEN_SUCCEEDED
+                    return PT.OPEN_SUCCEEDED if kind == "session" else PT.OPEN_FAILED_ADMINISTRATIVELY_PROHIBITED
 
                 def check_channel_direct_tcpip_request(self, chanid, origin, destination):
                     return PT.OPEN_SUCCEEDED
@@ -854,7 +961,13 @@ class SchBench:
             self.alloc(cid, "peer-open", me)
             self.pid2cid[pid] = cid
         elif ptype == 97:
-            self.closes.append(R.Reader(raw[1:]).u32())
+            pid = R.Reader(raw[1:]).u32()
+            if pid in self.peer_closed:
+                # our answer to the peer's CLOSE: that channel is gone on both sides, the peer may use the id again
+                self.peer_closed.discard(pid)
+                self.pid2cid.pop(pid, None)
+            else:
+                self.closes.append(pid)
         elif ptype == 80 and not self.in_tasks:
             # set-up only: the peer grants the tcpip-forward request at once (what the transport thread does with the reply)
             self.dispatch(peers.m_request_success(R.u32(4242)))
@@ -905,10 +1018,26 @@ class SchBench:
                 self.do_peer(tuple(op), sequential=True)
 
     # ------------------------------------------------------------------ operations
-    def peer_open_payload(self, kind):
+    def peer_open_payload(self, kind, pidsel=None):
+        """pidsel: None - the peer's id for the channel is a value no local id has here (700+); n - it is the value of the n-th
+        local id in use (the two sides number their channels independently, from the same small integers), unless the peer
+        already uses that value for a live channel of its own; "high" - a value above 2^24 (the peer's ids are any uint32)."""
         R = self.R
-        pid = self.next_pid
-        self.next_pid += 1
+        pid = None
+        if pidsel == "high":
+            pid = 0xFFFFFF00 + (self.next_pid % 200)
+            self.next_pid += 1
+            self.classes.add("sch:peer-id-above-24-bits")
+        elif pidsel is not None and self.inuse:
+            ids = sorted(self.inuse)
+            pid = ids[pidsel % len(ids)]
+            if pid in self.pid2cid:
+                pid = None
+            else:
+                self.classes.add("sch:peer-id-equals-local-id-in-use")
+        if pid is None:
+            pid = self.next_pid
+            self.next_pid += 1
         rest = b""
         if kind == "forwarded-tcpip":
             rest = R.string(b"") + R.u32(4242) + R.string(b"10.9.8.7") + R.u32(4711)
@@ -930,14 +1059,21 @@ class SchBench:
         t = self.t
         if k == "popen":
             self.mark_hot()
-            self.dispatch(self.peer_open_payload(op[1]))
+            self.dispatch(self.peer_open_payload(op[1], op[2] if len(op) > 2 else None))
             self.classes.add("sch:peer-open:" + op[1])
+        elif k == "prefused":
+            # a peer open this side turns down (kind index, peer id selector): nothing becomes live
+            self.mark_hot()
+            kinds = SCH_REFUSED_KINDS[self.role]
+            self.dispatch(self.peer_open_payload(kinds[op[1] % len(kinds)], op[2] if len(op) > 2 else None))
+            self.classes.add("sch:peer-open-refused")
         elif k == "pclose":
             live = self.established()
             if live:
                 o = live[op[1] % len(live)]
                 o[2] = True
                 self.inuse.pop(o[1], None)
+                self.peer_closed.update(p for p, c in self.pid2cid.items() if c == o[1])
                 self.dispatch(peers.m_channel_close(o[1]))
                 self.classes.add("sch:close-peer-first")
         elif k == "jump":
@@ -969,7 +1105,7 @@ class SchBench:
                     self.answer(self.pending.pop(0), True)
                 elif self.closes:
                     pid = self.closes.pop(0)
-                    cid = self.pid2cid.get(pid)
+                    cid = self.pid2cid.pop(pid, None)
                     if cid is not None:
                         self.dispatch(peers.m_channel_close(cid))
                 else:
@@ -1122,10 +1258,12 @@ def sch_execute(ctx, case, strategy=None, extra_classes=()):
 def _sch_case(role):
     pk = st.sampled_from(SCH_PEER_KINDS[role])
     lk = st.sampled_from(SCH_LOCAL_KINDS[role])
-    popen = st.tuples(st.just("popen"), pk)
+    pidsel = st.sampled_from([None, None, 0, 1, 2, 3, "high"])
+    popen = st.tuples(st.just("popen"), pk, pidsel)
+    prefused = st.tuples(st.just("prefused"), st.integers(0, 1), pidsel)
     jump = st.tuples(st.just("jump"), st.sampled_from(["max", "max-1", "live", "live", "below-live"]), st.integers(0, 7))
-    pre_op = st.one_of(popen, popen.map(lambda v: v), st.tuples(st.just("pclose"), st.integers(0, 7)), jump)
-    peer_op = st.one_of(popen, popen.map(lambda v: v), popen.map(lambda v: (v)), st.tuples(st.just("answer"), st.sampled_from([True, True, False])), st.tuples(st.just("pclose"), st.integers(0, 7)))
+    pre_op = st.one_of(popen, popen.map(lambda v: v), st.tuples(st.just("pclose"), st.integers(0, 7)), jump, prefused)
+    peer_op = st.one_of(popen, popen.map(lambda v: v), popen.map(lambda v: (v)), st.tuples(st.just("answer"), st.sampled_from([True, True, False])), st.tuples(st.just("pclose"), st.integers(0, 7)), prefused)
     app_op = st.one_of(st.tuples(st.just("open"), lk), st.tuples(st.just("open"), lk).map(lambda v: v), st.tuples(st.just("close"), st.integers(0, 3)))
     app = st.tuples(st.tuples(st.just("open"), lk), st.lists(app_op, max_size=2)).map(lambda t: [t[0]] + list(t[1]))
     return st.fixed_dictionaries(
@@ -1226,6 +1364,10 @@ def run(ctx):
         def jump(self, side, to, pick):
             self._do({"op": "jump", "side": side, "to": to, "pick": pick})
 
+        @rule(side=st.sampled_from(["c", "s"]))
+        def refused(self, side):
+            self._do({"op": "refused", "side": side})
+
         @precondition(lambda self: self.s is not None and len(self.s.pairs) < 7)
         @rule()
         def gated(self):
@@ -1272,13 +1414,17 @@ def run(ctx):
         def start_local_open_(self):  # twice as likely as the other rules: unanswered opens are the point of this family
             self._do({"op": "start"})
 
-        @rule(idx=st.integers(0, 3), ok=st.sampled_from([True, True, True, False]))
-        def answer(self, idx, ok):
-            self._do({"op": "answer", "idx": idx, "ok": ok})
+        @rule(idx=st.integers(0, 3), ok=st.sampled_from([True, True, True, False]), pid=st.sampled_from(["fresh", "fresh", "local", "counter", "high"]), pidx=st.integers(0, 7))
+        def answer(self, idx, ok, pid, pidx):
+            self._do({"op": "answer", "idx": idx, "ok": ok, "pid": pid, "pidx": pidx})
 
-        @rule()
-        def peer_open(self):
-            self._do({"op": "popen"})
+        @rule(pid=st.sampled_from(["fresh", "fresh", "local", "counter", "high"]), pidx=st.integers(0, 7))
+        def peer_open(self, pid, pidx):
+            self._do({"op": "popen", "pid": pid, "pidx": pidx})
+
+        @rule(pid=st.sampled_from(["fresh", "local", "local", "counter"]), pidx=st.integers(0, 7), kind=st.integers(0, 2))
+        def peer_open_refused(self, pid, pidx, kind):
+            self._do({"op": "popen", "refuse": True, "pid": pid, "pidx": pidx, "kind": kind})
 
         @rule(idx=st.integers(0, 7))
         def close(self, idx):
